@@ -128,3 +128,113 @@ def register_unions(src):
         Case('fails', 'raise', lambda pre: t.TRUE, ensures=generic_raise, modifies=['stream']),
     ], loops={'for (i, sc) in enumerate(self.subcons)': LoopSpec(_union_inv, tags=T, modifies=())}, tags=T, requires=requires)
     return c
+
+
+# ================================================================================================ Union._build
+# The first member that can be built - one that builds from nothing (flagbuildnone) or one whose name is a key of the supplied
+# mapping - is built from the supplied value (None when absent) at the current position, with that value in the nested scope
+# under its name; the result is a container holding what its build returned under its name.  No such member: UnionError.
+from .composites import bs  # noqa
+from .wrappers import _written  # noqa
+
+
+def define_union_build_folds():
+    prelude.define('ubskip', """(define-fun-rec ubskip ((sl Int) (k Int) (D (Array Int (Array String Bool))) (oa Int)) Bool
+  (ite (<= k 0) true (and (ubskip sl (- k 1) D oa) (not (bhas (sl_at sl (- k 1)) D oa)))))""", deps=['bhas', 'sl_at'])
+
+
+def _ubskip(LE, sl, k):
+    return t.app('ubskip', t.BOOL, sl, k, LE.ghost['D'], _addr(LE, 'obj'))
+
+
+def _ub_unfold(LE, sl, k):
+    m = t.app('sl_at', t.INT, sl, t.sub(k, t.ONE))
+    return t.implies(t.ge(k, t.ONE), t.eq(_ubskip(LE, sl, k), t.and_(_ubskip(LE, sl, t.sub(k, t.ONE)), t.not_(t.app('bhas', t.BOOL, m, LE.ghost['D'], _addr(LE, 'obj'))))))
+
+
+def _ub_inv(L):
+    pre = L.extra['pre']
+    o0 = pre.obj('stream')
+    if o0.model == 'adv':
+        return []
+    sl = pre.self.fields['subcons'].ident
+    o = L.obj('stream')
+    LE = L.entry
+    hints = [_ub_unfold(LE, sl, L.k)] if L.k.op != 'int' else []
+    return [('every-earlier-member-is-absent-from-the-mapping-and-cannot-build-from-nothing',
+             t.and_(_ubskip(LE, sl, L.k), t.eq(o.pos, o0.pos), t.eq(o.buf, o0.buf), t.eq(o.len, o0.len), t.eq(L.st.ghost['H'], LE.ghost['H']), t.eq(L.st.ghost['D'], LE.ghost['D']),
+                    t.eq(_addr(L.st, 'context'), _addr(LE, 'context')), t.eq(_addr(L.st, 'obj'), _addr(LE, 'obj'))), None, hints)]
+
+
+def _ub_le(post):
+    from .composites import _le_build
+    return _le_build(post)
+
+
+def _ub_member(pre, LE, k):
+    sl = pre.self.fields['subcons'].ident
+    o0 = pre.obj('stream')
+    m = t.app('sl_at', t.INT, sl, k)
+    c1, oa = _addr(LE, 'context'), _addr(LE, 'obj')
+    H, D = LE.ghost['H'], LE.ghost['D']
+    v = t.app('bval', t.VAL, m, H, D, oa)
+    nm = t.app('sc_name', t.VAL, m)
+    named = t.app('truthy', t.BOOL, nm)
+    key = t.app('sval', t.STR, nm)
+    H1 = t.ite(named, t.T('Heap', 'store', (H, c1, t.T('Fields', 'store', (t.T('Fields', 'select', (H, c1)), key, v)))), H)
+    D1 = t.ite(named, t.T('Dom', 'store', (D, c1, t.T('Keys', 'store', (t.T('Keys', 'select', (D, c1)), key, t.TRUE)))), D)
+    a = (m, v, t.add(o0.pos, _base(o0)), H1, D1, c1)
+    return m, named, key, a
+
+
+def _ub_ok(pre, post):
+    o, o2 = S_(pre), post.obj('stream')
+    k = post.st.ghost.get('loop_k')
+    ghost_mode = getattr(post.eng.models, 'ghost_mode', False)
+    if k is None:
+        if not ghost_mode and post.st.ghost.get('LE'):
+            return []
+        k = fresh('chosen_member', t.INT)
+    LE = _ub_le(post)
+    sl = pre.self.fields['subcons'].ident
+    n = t.app('sl_len', t.INT, sl)
+    m, named, key, a = _ub_member(pre, LE, k)
+    ln, W, ret = t.app('B_len', t.INT, *a), t.app('B_bytes', t.ARR, *a), t.app('B_ret', t.VAL, *a)
+    out = [('the-first-member-present-in-the-mapping-or-buildable-from-nothing-is-built',
+            t.and_(t.le(t.ZERO, k), t.lt(k, n), _ubskip(LE, sl, k), t.app('bhas', t.BOOL, m, LE.ghost['D'], _addr(LE, 'obj')), t.app('B_ok', t.BOOL, *a)), T + ('C01',)),
+           ('advances-by-what-that-member-wrote', t.eq(o2.pos, t.add(o.pos, ln)), T + ('C01',)),
+           _written(o, o2, ln, lambda i: t.select(W, i), 'emits-exactly-the-bytes-that-member-built') + (T + ('C01',),)]
+    r = post.st.get(post.result) if isinstance(post.result, VRef) else None
+    if r is not None and hasattr(r, 'addr'):
+        H2, D2 = post.st.ghost['H'], post.st.ghost['D']
+        out.append(('returns-a-container-holding-what-the-member-build-returned-under-its-name',
+                    t.implies(named, t.and_(t.T(t.BOOL, 'select', (t.T('Keys', 'select', (D2, r.addr)), key)), t.eq(t.T(t.VAL, 'select', (t.T('Fields', 'select', (H2, r.addr)), key)), ret))), T + ('C01',)))
+    return out
+
+
+def _ub_bad(pre, post):
+    out = list(generic_raise(pre, post))
+    o0 = pre.obj('stream')
+    if o0.model == 'adv' or not (post.st.ghost.get('LE') or getattr(post.eng.models, 'ghost_mode', False)):
+        return out
+    LE = _ub_le(post)
+    sl = pre.self.fields['subcons'].ident
+    n = t.app('sl_len', t.INT, sl)
+    k = post.st.ghost.get('loop_k')
+    if k is None or getattr(post.eng.models, 'ghost_mode', False):
+        k = fresh('failed_member', t.INT)
+    m, named, key, a = _ub_member(pre, LE, k)
+    ue = t.eq(post.exc.cls, I(post.eng.src.exc_code['UnionError']))
+    out.append(('a-failure-is-the-chosen-member-failing-or-UnionError-when-no-member-can-be-built',
+                t.or_(t.and_(ue, _ubskip(LE, sl, n)), t.and_(t.le(t.ZERO, k), t.lt(k, n), _ubskip(LE, sl, k), t.not_(t.app('B_ok', t.BOOL, *a)))), T + ('C13',)))
+    return out
+
+
+def register_union_build(src):
+    define_union_build_folds()
+    fcontract('Union', '_build', [
+        Case('ok', 'return', lambda pre: t.TRUE, ensures=_ub_ok, rkind=rk_dyn, modifies=['stream']),
+        Case('fails', 'raise', lambda pre: t.TRUE, ensures=_ub_bad, modifies=['stream']),
+    ], loops={'for sc in self.subcons': LoopSpec(_ub_inv, tags=T)}, tags=T + ('C01', 'C13'), sequential_build=False,
+        requires=lambda pre: [('the-supplied-value-is-an-existing-mapping', t.and_(t.app('(_ is VRef)', t.BOOL, pre['obj'].t), t.le(t.ZERO, t.app('ref', t.INT, pre['obj'].t)),
+                                                                                  t.lt(t.app('ref', t.INT, pre['obj'].t), pre.st.ghost['alloc'])))])
